@@ -388,6 +388,10 @@ class DHEat:
             if (interactive is False) and ((now - start_timer) >= max_time) or (num_opened_connections >= max_connections):
                 break
 
+            # During non-interactive tests, the number of connection attempts is capped as well (a server that answers with something other than an SSH banner would otherwise be hammered with attempts until the time limit elapses).
+            if (interactive is False) and (num_attempted_connections >= max_connections) and (len(socket_dict) == 0):
+                break
+
             # out.d("interactive: %r; time.time() - start_timer: %f; max_time: %f; num_opened_connections: %u; max_connections: %u" % (interactive, time.time() - start_timer, max_time, num_opened_connections, max_connections), write_now=True)
 
             # Give the user some interactive feedback.
@@ -430,7 +434,7 @@ class DHEat:
                 del timedout_sockets[0]
 
             # Open new sockets until we've hit the number of concurrent sockets, or if we exceeded the number of maximum connections.
-            while (len(socket_dict) < concurrent_sockets) and (len(socket_dict) + num_opened_connections < max_connections):
+            while (len(socket_dict) < concurrent_sockets) and (len(socket_dict) + num_opened_connections < max_connections) and (interactive or (num_attempted_connections < max_connections)):
                 s = socket.socket(target_address_family, socket.SOCK_STREAM)
                 s.setblocking(False)
 
